@@ -613,11 +613,13 @@ def _m_straggler(case, fails):
 # tie with the Lean protocol models (FB.Conc): every outcome the real code shows under the explored
 # schedules must be an outcome the model reaches under some schedule
 # ---------------------------------------------------------------------------------------------
-def model_outcomes(proto, threads, paths=None):
+def model_outcomes(proto, threads, paths=None, fails=None):
     from . import model
     req = {'kind': 'conc', 'proto': proto, 'threads': threads}
     if paths is not None:
         req['paths'] = paths
+    if fails is not None:
+        req['fails'] = fails
     out, = model.run_cases([req])
     return set(out['outcomes']), out['schedules']
 
